@@ -257,7 +257,7 @@ func c13Rank(name string) int {
 }
 
 func runC13(ctx *Ctx) error {
-	ctx.Res.Rule = "seeded operations (1-5 responses over {codes, 1XX-5XX, default} x 0-3 media types over {json, vendor +json, hal+json, problem+json, x-json, yaml, xml, text, octet-stream, image} with/without schema; half of them with several JSON media types per response): CORR of the emitted switch (parsed by go/ast) with Lean genCases; RUN: Parse<Op>Response of the compiled client on every (status in a status set) x (declared and undeclared Content-Type, with and without parameters) with a valid body, compared with Lean parse and with the statement's oracle; request bodies: every typed builder New<Op>Request… of operations with JSON, vendor +json, form and text bodies (flat, nested, list and string schemas; one and several media types per operation) on seeded values (quotes, separators, non-ASCII): Content-Type is the declared one and the body decodes to the value; CORR of encoding/json (Unmarshal∘Marshal on decoded Go values of seeded reflect-built types) with GoJson.encode/decode and the stable predicate; non-trivial = every (operation, status, content-type)"
+	ctx.Res.Rule = "seeded operations (1-5 responses over {codes, 1XX-5XX, default} x 0-3 media types over {json, vendor +json, hal+json, problem+json, x-json, yaml, xml, text, octet-stream, image} with/without schema; half of them with several JSON media types per response): CORR of the emitted switch (parsed by go/ast) with Lean genCases; RUN: Parse<Op>Response of the compiled client on every (status in a status set) x (declared and undeclared Content-Type, with and without parameters) with a valid body, compared with Lean parse and with the statement's oracle; request bodies: every typed builder New<Op>Request… of operations with JSON, vendor +json, form and text bodies (flat, nested, list and string schemas; one and several media types per operation) on seeded values (quotes, separators, non-ASCII): Content-Type is the declared one and the body decodes to the value; CORR of encoding/json (Unmarshal∘Marshal on decoded Go values of seeded reflect-built types) with GoJson.encode/decode and the stable predicate; non-trivial = every (operation, status, content-type) Session 9: CORR of GenerateBodyDefinitions (Model/Bodies.lean); TRANS Gen/MediaSwitch.lean and Gen/BodyRules.lean; the run program calls the previous builder again before it looks at a request."
 	// the JSON body encoder/decoder pair of the request-body clause: encoding/json vs Model/GoJson.lean, both directions
 	if err := corrGoJSON(ctx, ctx.N(1500, 20000)); err != nil {
 		return err
